@@ -476,6 +476,51 @@ pub fn run_c05(tier: Tier) -> i32 {
             n
         })
         .sum();
+    // (b2) complete short frames: every first byte, remaining length 2..=4 (thorough: 5), every
+    // body of exactly that length over a byte set that contains small lengths, property
+    // identifiers and reason codes — where the short forms of the MQTT 5 acknowledgements,
+    // DISCONNECT, CONNACK and UNSUBACK live; and the same bodies one byte short
+    let set13 = [0x00u8, 0x01, 0x02, 0x03, 0x04, 0x10, 0x11, 0x1f, 0x26, 0x7f, 0x80, 0x92, 0xff];
+    let max_rem = if tier == Tier::Quick { 4 } else { 5 };
+    let inputs_b2: u64 = firsts
+        .par_iter()
+        .map(|b0| {
+            let mut n = 0u64;
+            for rem in 2..=max_rem {
+                let mut idx = vec![0usize; rem];
+                'bodies: loop {
+                    let mut s = vec![*b0, rem as u8];
+                    s.extend(idx.iter().map(|i| set13[*i]));
+                    for c in CODECS {
+                        check_decode(&ctx, c, &s, maxes[0]);
+                    }
+                    n += 1;
+                    if rem <= 3 {
+                        // the same frame with its last byte still missing
+                        s.pop();
+                        for c in CODECS {
+                            check_decode(&ctx, c, &s, maxes[0]);
+                        }
+                        n += 1;
+                    }
+                    let mut k = rem;
+                    loop {
+                        if k == 0 {
+                            break 'bodies;
+                        }
+                        k -= 1;
+                        if idx[k] + 1 < set13.len() {
+                            idx[k] += 1;
+                            break;
+                        }
+                        idx[k] = 0;
+                    }
+                }
+            }
+            n
+        })
+        .sum();
+    let inputs_b = inputs_b + inputs_b2;
     // (c) mutations of valid packets; (d) chunkings; (e) max sizes
     let grid4 = grid_v4(true);
     let grid5 = grid_v5(true);
@@ -566,7 +611,7 @@ pub fn run_c05(tier: Tier) -> i32 {
     ev.traces_validated = evals;
     ev.set("evaluations", json!(evals));
     ev.set("distinct_nontrivial", json!(ctx.packets.load(Ordering::Relaxed) + ctx.needmore.load(Ordering::Relaxed)));
-    ev.set("inputs", json!({"all_byte_strings_up_to": max_len, "count_a": inputs_a, "header_prefix_grid": inputs_b, "mutations_of_valid_frames": inputs_c, "valid_frames_mutated": sel.len(), "streams_chunked": streams.len(), "framing_layer_runs": framed_runs}));
+    ev.set("inputs", json!({"all_byte_strings_up_to": max_len, "count_a": inputs_a, "header_prefix_grid": inputs_b, "complete_short_frames_rem_2_to": max_rem, "complete_short_frames": inputs_b2, "mutations_of_valid_frames": inputs_c, "valid_frames_mutated": sel.len(), "streams_chunked": streams.len(), "framing_layer_runs": framed_runs}));
     ev.set("decoded_packets", json!(ctx.packets.load(Ordering::Relaxed)));
     ev.set("need_more_answers", json!(ctx.needmore.load(Ordering::Relaxed)));
     ev.set("rule", json!("every byte string up to the length bound and every grid input is decoded by each of the four decoders (bare entry points; streams also through tokio_util Framed and rumqttd Network::read/readv); non-trivial = inputs answered with a packet or with need-more"));
@@ -1021,6 +1066,50 @@ pub fn grid_v5(reduced: bool) -> Vec<c5::Packet> {
                 })
             };
             g.push(c5::Packet::Disconnect(c5::Disconnect { reason_code: r, properties: props }));
+        }
+    }
+    // every MQTT 5 reason code of every acknowledgement type (one packet each)
+    {
+        use c5::ConnectReturnCode as C;
+        for code in [
+            C::Success, C::UnspecifiedError, C::MalformedPacket, C::ProtocolError, C::ImplementationSpecificError,
+            C::UnsupportedProtocolVersion, C::ClientIdentifierNotValid, C::BadUserNamePassword, C::NotAuthorized,
+            C::ServerUnavailable, C::ServerBusy, C::Banned, C::BadAuthenticationMethod, C::TopicNameInvalid,
+            C::PacketTooLarge, C::QuotaExceeded, C::PayloadFormatInvalid, C::RetainNotSupported, C::QoSNotSupported,
+            C::UseAnotherServer, C::ServerMoved, C::ConnectionRateExceeded,
+        ] {
+            g.push(c5::Packet::ConnAck(c5::ConnAck { session_present: false, code, properties: None }));
+        }
+        use c5::PubAckReason as A;
+        for reason in [A::Success, A::NoMatchingSubscribers, A::UnspecifiedError, A::ImplementationSpecificError, A::NotAuthorized, A::TopicNameInvalid, A::PacketIdentifierInUse, A::QuotaExceeded, A::PayloadFormatInvalid] {
+            g.push(c5::Packet::PubAck(c5::PubAck { pkid: 7, reason, properties: None }));
+        }
+        use c5::PubRecReason as R2;
+        for reason in [R2::Success, R2::NoMatchingSubscribers, R2::UnspecifiedError, R2::ImplementationSpecificError, R2::NotAuthorized, R2::TopicNameInvalid, R2::PacketIdentifierInUse, R2::QuotaExceeded, R2::PayloadFormatInvalid] {
+            g.push(c5::Packet::PubRec(c5::PubRec { pkid: 7, reason, properties: None }));
+        }
+        use c5::SubscribeReasonCode as S;
+        for code in [
+            S::Success(c5b::QoS::AtMostOnce), S::Success(c5b::QoS::AtLeastOnce), S::Success(c5b::QoS::ExactlyOnce), S::Unspecified,
+            S::ImplementationSpecific, S::NotAuthorized, S::TopicFilterInvalid, S::PkidInUse, S::QuotaExceeded,
+            S::SharedSubscriptionsNotSupported, S::SubscriptionIdNotSupported, S::WildcardSubscriptionsNotSupported,
+        ] {
+            g.push(c5::Packet::SubAck(c5::SubAck { pkid: 7, return_codes: vec![code], properties: None }));
+        }
+        use c5::UnsubAckReason as U;
+        for reason in [U::Success, U::NoSubscriptionExisted, U::UnspecifiedError, U::ImplementationSpecificError, U::NotAuthorized, U::TopicFilterInvalid, U::PacketIdentifierInUse] {
+            g.push(c5::Packet::UnsubAck(c5::UnsubAck { pkid: 7, reasons: vec![reason], properties: None }));
+        }
+        use c5::DisconnectReasonCode as D;
+        for reason_code in [
+            D::NormalDisconnection, D::DisconnectWithWillMessage, D::UnspecifiedError, D::MalformedPacket, D::ProtocolError,
+            D::ImplementationSpecificError, D::NotAuthorized, D::ServerBusy, D::ServerShuttingDown, D::KeepAliveTimeout,
+            D::SessionTakenOver, D::TopicFilterInvalid, D::TopicNameInvalid, D::ReceiveMaximumExceeded, D::TopicAliasInvalid,
+            D::PacketTooLarge, D::MessageRateTooHigh, D::QuotaExceeded, D::AdministrativeAction, D::PayloadFormatInvalid,
+            D::RetainNotSupported, D::QoSNotSupported, D::UseAnotherServer, D::ServerMoved, D::SharedSubscriptionNotSupported,
+            D::ConnectionRateExceeded, D::MaximumConnectTime, D::SubscriptionIdentifiersNotSupported, D::WildcardSubscriptionsNotSupported,
+        ] {
+            g.push(c5::Packet::Disconnect(c5::Disconnect { reason_code, properties: None }));
         }
     }
     if !reduced {
